@@ -149,6 +149,15 @@ fn translate_block(
         // slot, return. We always want to have enough bytes to handle a delay
         // slot.
         if offset >= bytes.len() {
+            // a branch whose delay slot lies beyond the bytes we were given
+            // cannot be lifted: its successors are already recorded, and
+            // falling through here would add a bogus one and drop the branch
+            if !matches!(branch_delay, TranslateBranchDelay::None) {
+                return Err(Error::Custom(format!(
+                    "MIPS branch delay slot at 0x{:x} is not available",
+                    address + offset as u64
+                )));
+            }
             successors.push((address + offset as u64, None));
             break;
         }
